@@ -325,7 +325,9 @@ func (stmt *Statement) BuildCondition(query interface{}, args ...interface{}) []
 		case clause.Expression:
 			conds = append(conds, v)
 		case *DB:
-			v.executeScopes()
+			// run the scopes on an instance of its own: a reusable handle keeps
+			// its scopes, and their conditions become part of the group
+			v = v.getInstance().executeScopes()
 
 			if cs, ok := v.Statement.Clauses["WHERE"]; ok {
 				if where, ok := cs.Expression.(clause.Where); ok {
